@@ -4,7 +4,7 @@ Exit codes of every check:  0 = property held on everything explored (KNOWN-FIND
 1 = VIOLATION (real code contradicts the spec, reproduced, not a listed finding), 2 = infrastructure
 trouble (TLC error / timeout, spec self-check failed, harness build failure, driver died).
 """
-import json, os, re, shutil, subprocess, sys, tempfile, time, hashlib
+import json, os, re, shutil, subprocess, sys, tempfile, threading, time, hashlib
 
 VERIF = os.path.dirname(os.path.dirname(os.path.abspath(__file__)))
 REPO = os.environ.get("VERIF_REPO", "/repo")
@@ -59,6 +59,7 @@ class Ctx:
         self.traces_validated = 0
         self.evaluations = 0
         self.quick = tier == "quick"
+        self._build_lock = threading.Lock()
 
     # ------------------------------------------------------------------ TLC
     def tlc(self, module, cfg, workers=None, timeout=600, simulate=None, depth=None, extra=None,
@@ -147,6 +148,10 @@ class Ctx:
 
     # -------------------------------------------------------------- harness
     def build_harness(self, race=False):
+        with self._build_lock:
+            return self._build_harness(race)
+
+    def _build_harness(self, race=False):
         key = "vh-race" if race else "vh"
         out = os.path.join(self.scratch, key)
         if os.path.exists(out):
@@ -181,6 +186,10 @@ class Ctx:
         return out
 
     def build_cli(self, tags="verif"):
+        with self._build_lock:
+            return self._build_cli(tags)
+
+    def _build_cli(self, tags="verif"):
         out = os.path.join(self.scratch, "gnark-mbu")
         if os.path.exists(out):
             return out
